@@ -33,18 +33,10 @@ from vlib import gen_value as GV
 from vlib import rustgen
 
 WORK = os.path.join(C.CACHE, "c11")
-PDLC_TARGET = os.path.join(C.CACHE, "pdlc-target")
-PDLC = os.path.join(PDLC_TARGET, "debug", "pdlc")
+PDLC_TARGET = C.PDLC_TARGET
+PDLC = C.PDLC
 TEXT_BACKENDS = ["json", "rust", "python", "cxx"]
-
-
-def build_pdlc():
-    env = dict(C.ENV)
-    env["CARGO_TARGET_DIR"] = PDLC_TARGET
-    with C.Lock("pdlc"):
-        rc, out = C.run(["cargo", "build", "--offline", "-p", "pdl-compiler", "--features", "java", "--bin", "pdlc"],
-                        cwd=C.REPO, env=env, timeout=3600)
-    return rc == 0 and os.path.exists(PDLC), out
+build_pdlc = C.build_pdlc
 
 
 def dir_digest(d):
